@@ -69,6 +69,11 @@ CLAIMED = {
          "failed/error-class status in run order, stale file removal, and the closed loop rerun file -> collect_feature_locations -> "
          "parse_features selects exactly the listed scenarios (incl. files with same-named scenarios)", "DESIGN.md 4/C17",
          "symbolic execution of real code + z3 (path space by solver, per-path report comparison)"),
+ "C18": ("real runs with marker-writing steps and step hooks, the three capture switches as z3 Booleans (8 combinations), outcomes incl. "
+         "KeyboardInterrupt and hook faults: sentinel stream identity at every formatter event, leak/pass-through of each marker, failing "
+         "step reports holding exactly the scenario's output up to that step, root logger handlers/level around every scenario; Captured "
+         "add/report kernel", "DESIGN.md 4/C18",
+         "symbolic execution of real code + z3 (capture switches/outcomes/fault position symbolic; per-path stream observations)"),
 }
 NA_REASON = "check not built yet in this round (planned, see DESIGN.md section 4)"
 checks = []
